@@ -207,6 +207,15 @@ def check(ctx):
               (len(st) == 1 and 'basename' in u(st[0].value)), 'R19c', ih.where, ih.qualname, "descriptor['path'] = join(dir, hash, file)",
               'the hashed path is not <dir>/<hash>/<file name>')
 
+    zd = repo.cls('dataflows.processors.dumpers.to_zip:ZipDumper')
+    zw = zd.methods['write_file_to_output']
+    from sa.pattern import has_expr as _he
+    run.check(_he('self.zip_file.write(%s, arcname=%s, compress_type=___)' % (zw.params[1], zw.params[2]), zw.node) or
+              _he('self.zip_file.write(%s, arcname=%s)' % (zw.params[1], zw.params[2]), zw.node), 'R19c', zw.where, zw.qualname,
+              'zip_file.write(filename, arcname=path)', 'the zip member is not stored under the path recorded in the descriptor')
+    zf = zd.methods['finalize']
+    run.check(_he('self.zip_file.close()', zf.node), 'R19c', zf.where, zf.qualname, 'zip closed on finalize',
+              'the zip archive is never closed (central directory missing)')
     run.rule('DET', 'DETERMINISM: no clock / random / pid source occurs in the dumper modules (hashes of identical data are identical)')
     hits = []
     for m in repo.modules.values():
@@ -219,6 +228,11 @@ def check(ctx):
                     hits.append((c, en))
     run.check(not hits, 'DET', 'dataflows/processors/dumpers', 'dataflows.processors.dumpers:<package>', 'no nondeterministic source',
               'nondeterministic source in a dumper: %s' % [(where(repo, c), en) for c, en in hits])
+    # the digest is MD5, for data files and for the package
+    for f in (fd.methods['hash_handler'], db.methods['process_resources']):
+        hs = [c for c in own_nodes(f.node) if isinstance(c, ast.Call) and (res.external_name(c) or '').startswith('hashlib.')]
+        run.check(len(hs) == 1 and res.external_name(hs[0]) == 'hashlib.md5', 'DET', f.where, f.qualname, 'hashlib.md5',
+                  'the recorded hash is not an MD5 digest (%s)' % [res.external_name(h) for h in hs])
     # hash of exactly the bytes: hash_handler rewinds and reads to the end
     hh = fd.methods.get('hash_handler')
     run.check(has_expr('_f.seek(0)', hh.node) and has_expr('_f.read(___)', hh.node) and has_expr('_h.update(___)', hh.node)
